@@ -144,6 +144,7 @@ Section C11_end_to_end.
   Variable terms : list eterm.
   Variable x : R.          (* source sample *)
   Variable y : Z.          (* decoded sample *)
+  Variable af : R.         (* deviation of the coded forward kernel, seen in the sample domain *)
   Variable di : R.         (* deviation of the coded inverse kernel (incl. its final rounding) *)
 
   Definition kq (t : eterm) : Z := quant8 (ecq t) (eq_ t).
@@ -151,13 +152,16 @@ Section C11_end_to_end.
   (* the exact transform pair reconstructs the sample from the exact coefficients *)
   Hypothesis Hexact : x = rsum (map (fun t => eg t * ec t) terms).
   Hypothesis Hx : 0 <= x <= 255.
-  (* per coefficient: synthesis weight bound, coded forward kernel within edf of the exact
-     coefficient, table entry as the encoders write them, coefficient inside int32 headroom *)
+  (* per coefficient: synthesis weight bound, table entry as the encoders write them,
+     coded coefficient inside int32 headroom *)
   Hypothesis Hterms : Forall (fun t =>
-      Rabs (eg t) <= ew t /\ Rabs (IZR (ecq t) / 8 - ec t) <= edf t /\
-      (1 <= eq_ t <= 255)%Z /\ (Z.abs (ecq t) <= 2 ^ 29)%Z) terms.
-  (* the coded inverse kernel is within di of the clamped exact inverse of the dequantised
-     coefficients *)
+      Rabs (eg t) <= ew t /\ (1 <= eq_ t <= 255)%Z /\ (Z.abs (ecq t) <= 2 ^ 29)%Z) terms.
+  (* "the coded DCT/IDCT pair is within delta of an exact inverse pair":
+     the exact inverse applied to (coded forward coefficients / 8 - exact coefficients)
+     moves the sample by at most af ... *)
+  Hypothesis Hfwd : Rabs (rsum (map (fun t => eg t * (IZR (ecq t) / 8 - ec t)) terms)) <= af.
+  (* ... and the coded inverse kernel is within di of the clamped exact inverse of the
+     dequantised coefficients *)
   Hypothesis Hinv : Rabs (IZR y - clampR (rsum (map (fun t => eg t * IZR (kq t * eq_ t)) terms))) <= di.
 
   Lemma rsum_minus : forall (f g : eterm -> R) (l : list eterm),
@@ -167,32 +171,32 @@ Section C11_end_to_end.
     cbn [map]. rewrite !rsum_cons. rewrite <- IH. lra.
   Qed.
 
-  Lemma rsum_split : forall (l : list eterm),
-    rsum (map (fun t => ew t * (IZR (eq_ t) / 2 + edf t)) l) =
-    rsum (map (fun t => ew t * IZR (eq_ t)) l) / 2 + rsum (map (fun t => ew t * edf t) l).
+  Lemma rsum_plus : forall (f g : eterm -> R) (l : list eterm),
+    rsum (map (fun t => f t + g t) l) = rsum (map f l) + rsum (map g l).
   Proof.
-    induction l as [|a l IH]; [unfold rsum; simpl; lra|].
-    cbn [map]. rewrite !rsum_cons, IH. lra.
+    intros f g l. induction l as [|a l IH]; [unfold rsum; simpl; lra|].
+    cbn [map]. rewrite !rsum_cons. rewrite IH. lra.
   Qed.
 
   Theorem C11_sample_bound_partial :
-    Rabs (IZR y - x) <=
-      rsum (map (fun t => ew t * IZR (eq_ t)) terms) / 2 + rsum (map (fun t => ew t * edf t) terms) + di.
+    Rabs (IZR y - x) <= rsum (map (fun t => ew t * IZR (eq_ t)) terms) / 2 + af + di.
   Proof.
     set (z := rsum (map (fun t => eg t * IZR (kq t * eq_ t)) terms)) in *.
     replace (IZR y - x) with ((IZR y - clampR z) + (clampR z - x)) by lra.
     eapply Rle_trans; [apply Rabs_triang|].
     pose proof (clamp_contracts z x Hx) as Hcl.
-    assert (Hz : Rabs (z - x) <=
-             rsum (map (fun t => ew t * IZR (eq_ t)) terms) / 2 + rsum (map (fun t => ew t * edf t) terms)).
-    { unfold z. rewrite Hexact. rewrite rsum_minus. rewrite <- rsum_split.
+    assert (Hz : Rabs (z - x) <= rsum (map (fun t => ew t * IZR (eq_ t)) terms) / 2 + af).
+    { unfold z. rewrite Hexact. rewrite rsum_minus.
       replace (map (fun t => eg t * IZR (kq t * eq_ t) - eg t * ec t) terms)
-        with (map (fun t => eg t * (IZR (kq t * eq_ t) - ec t)) terms)
+        with (map (fun t => eg t * (IZR (kq t * eq_ t) - IZR (ecq t) / 8) + eg t * (IZR (ecq t) / 8 - ec t)) terms)
         by (apply map_ext; intros; lra).
-      apply (C11_bound_linear_R eterm eg (fun t => IZR (kq t * eq_ t) - ec t) ew (fun t => IZR (eq_ t) / 2 + edf t)).
-      eapply Forall_impl; [|exact Hterms]. intros t [Hg [Hf [Hq Hc]]]. split; [exact Hg|].
-      replace (IZR (kq t * eq_ t) - ec t) with ((IZR (kq t * eq_ t) - IZR (ecq t) / 8) + (IZR (ecq t) / 8 - ec t)) by lra.
-      eapply Rle_trans; [apply Rabs_triang|]. apply Rplus_le_compat; [|exact Hf].
+      rewrite rsum_plus.
+      eapply Rle_trans; [apply Rabs_triang|]. apply Rplus_le_compat; [|exact Hfwd].
+      rewrite <- rsum_half.
+      replace (map (fun t => ew t * IZR (eq_ t) / 2) terms) with (map (fun t => ew t * (IZR (eq_ t) / 2)) terms)
+        by (apply map_ext; intros; lra).
+      apply (C11_bound_linear_R eterm eg (fun t => IZR (kq t * eq_ t) - IZR (ecq t) / 8) ew (fun t => IZR (eq_ t) / 2)).
+      eapply Forall_impl; [|exact Hterms]. intros t [Hg [Hq Hc]]. split; [exact Hg|].
       unfold kq. apply quant8_error_R; assumption. }
     lra.
   Qed.
@@ -201,7 +205,7 @@ Section C11_end_to_end.
      provided the kernels' deviations fit the fixed allowance of 2 grey levels *)
   Variable qt : list Z.
   Hypothesis Hshape : map eq_ terms = qt /\ map ew terms = map wIdct (seq 0 (length terms)).
-  Hypothesis Hallow : rsum (map (fun t => ew t * edf t) terms) + di <= 2.
+  Hypothesis Hallow : af + di <= 2.
 
   Lemma shape_sum : forall (l : list eterm) s, map ew l = map wIdct (seq s (length l)) ->
     rsum (map (fun t => ew t * IZR (eq_ t)) l) =
